@@ -75,11 +75,22 @@ func c18Jobs(c *hx.Ctx) []*c18Job {
 		if !ok {
 			continue
 		}
-		for _, spp := range []int{1, 3} {
-			bs := 8
-			if sy.MaxBits > 8 && spp == 1 && sy.Name != "jls80" {
-				bs = 12
-			}
+		// tiny frames (shorter side 1..31 px, 1x1 included: size-dependent parameter clamping paths), frames of
+		// a few code-blocks, and — for scans long enough to overlap in time — 192x160 frames of more than 8 bits
+		type geo struct{ w, h, spp, bs int }
+		deep := 8
+		if sy.MaxBits > 8 {
+			deep = 12
+		}
+		geos := []geo{{1, 1, 1, 8}, {7, 5, 1, 8}, {16, 16, 1, deep}, {16, 16, 3, 8}, {31, 40, 3, 8}, {64, 48, 1, deep}, {72, 64, 3, 8}}
+		if sy.MaxBits > 8 {
+			geos = append(geos, geo{192, 160, 1, deep})
+		}
+		if sy.Name == "jls80" || sy.Name == "jls81" {
+			geos = append(geos, geo{192, 160, 3, 16}, geo{200, 170, 1, 16})
+		}
+		for _, g := range geos {
+			spp, bs := g.spp, g.bs
 			if sy.Name == "jpeg51" && spp == 3 {
 				bs = 8
 			}
@@ -87,9 +98,13 @@ func c18Jobs(c *hx.Ctx) []*c18Job {
 			if bs > 8 {
 				ba = 16
 			}
-			info := c10Info{16, 16, spp, ba, bs}
+			info := c10Info{g.w, g.h, spp, ba, bs}
 			j := &c18Job{sy: sy, cd: cd, info: info, enc: map[bool][][]byte{}, dec: map[bool][][]byte{}, usable: map[bool]bool{}, typeKey: c18TypeKey(cd)}
-			for k := 0; k < 2; k++ {
+			nf := 2
+			if g.w*g.h > 10000 {
+				nf = 1
+			}
+			for k := 0; k < nf; k++ {
 				j.frames = append(j.frames, c10Frame(c.R, info, k*3))
 			}
 			for _, withP := range []bool{false, true} {
@@ -112,8 +127,9 @@ func c18Jobs(c *hx.Ctx) []*c18Job {
 			}
 			if j.usable[false] || j.usable[true] {
 				jobs = append(jobs, j)
+				c.Count(fmt.Sprintf("job:%dx%dx%d-bs%d", g.w, g.h, spp, bs))
 			} else {
-				c.Count("job-unusable:" + sy.Name)
+				c.Count("job-unusable:" + sy.Name + fmt.Sprintf(":%dx%dx%d", g.w, g.h, spp))
 			}
 		}
 	}
@@ -147,11 +163,37 @@ func c18Stress(jobs []*c18Job, gmp, nG, ops int, mode string, seed uint64) (int,
 	for cd, p := range sharedByType {
 		sharedHash[cd] = c10DeepHash(reflect.ValueOf(p))
 	}
+	// the shared objects are hashed before and after, and — in the plain build, where a racy read is only a read —
+	// polled DURING the run, so that a temporary modification that is restored before the call returns is seen
+	stopWatch := make(chan struct{})
+	watchDone := make(chan struct{})
+	transient := map[string]bool{}
+	go func() {
+		defer close(watchDone)
+		if c18RaceBuild || len(sharedByType) == 0 {
+			return
+		}
+		for {
+			select {
+			case <-stopWatch:
+				return
+			default:
+			}
+			for cd, p := range sharedByType {
+				if c10DeepHash(reflect.ValueOf(p)) != sharedHash[cd] {
+					transient[c18TypeKey(cd)] = true
+				}
+			}
+			runtime.Gosched()
+		}
+	}()
 	defer func() {
+		close(stopWatch)
+		<-watchDone
 		for cd, p := range sharedByType {
 			k := c18TypeKey(cd)
 			c18ParamsSeen[k] = true
-			if c10DeepHash(reflect.ValueOf(p)) != sharedHash[cd] {
+			if c10DeepHash(reflect.ValueOf(p)) != sharedHash[cd] || transient[k] {
 				c18ParamsChanged[k] = true
 			}
 		}
@@ -221,6 +263,24 @@ func c18Stress(jobs []*c18Job, gmp, nG, ops int, mode string, seed uint64) (int,
 	close(start)
 	wg.Wait()
 	return evals, mism
+}
+
+// c18PerCodec: for every codec type its own mix (tiny and large frames of that codec only) on ONE shared
+// parameters object — the schedule in which a size-dependent write to the shared object meets a reader
+func c18PerCodec(jobs []*c18Job, gmp, nG, ops int, seed uint64, each func(typeKey string, n int, mism []c18Mismatch)) {
+	byType := map[string][]*c18Job{}
+	var keys []string
+	for _, j := range jobs {
+		if _, ok := byType[j.typeKey]; !ok {
+			keys = append(keys, j.typeKey)
+		}
+		byType[j.typeKey] = append(byType[j.typeKey], j)
+	}
+	sort.Strings(keys)
+	for i, k := range keys {
+		n, mism := c18Stress(byType[k], gmp, nG, ops, "shared", seed+uint64(i)*131)
+		each(k, n, mism)
+	}
 }
 
 func c18Plan(thorough bool) (gmps []int, nG, ops int) {
@@ -294,6 +354,22 @@ func c18Main(c *hx.Ctx) {
 		}
 	}
 
+	pcG, pcOps := 8, 3
+	if c.Thorough() {
+		pcG, pcOps = 32, 12
+	}
+	for _, gmp := range []int{4, 16} {
+		c18PerCodec(jobs, gmp, pcG, pcOps, c.Seed+uint64(gmp)*977, func(k string, n int, mism []c18Mismatch) {
+			for i := 0; i < n; i++ {
+				c.Eval(fmt.Sprintf("percodec|%d|%s|%d", gmp, k, i), true)
+			}
+			c.CountN("calls:percodec-shared:"+k, n)
+			for _, m := range mism {
+				c10Fail(c, hx.Failure{Class: m.class, What: m.what, Input: m.input, Expected: "identical bytes", Actual: fmt.Sprint(m.input["outcome"])})
+			}
+		})
+	}
+
 	// facts from the dynamic side
 	var types []string
 	for k := range codecs {
@@ -307,6 +383,13 @@ func c18Main(c *hx.Ctx) {
 			ch = 1
 		}
 		c.Case(fmt.Sprintf("fact-codec-changed %s %d", k, ch), "ok")
+	}
+	for _, k := range types {
+		if c18ParamsChanged[k] {
+			// a shared, already-valid parameters object was written while other goroutines were using it
+			c10Fail(c, hx.Failure{Class: "c18-shared-parameters-written-" + k, What: "the shared GetDefaultParameters() object changed (possibly only temporarily) during concurrent Encode/Decode calls",
+				Input: map[string]any{"codec": k, "mode": "shared", "seed": c.Seed}, Expected: "object only read", Actual: "deep hash differs during or after the run"})
+		}
 	}
 	for _, k := range types {
 		if c18ParamsSeen[k] {
@@ -382,11 +465,18 @@ func c18RaceChild(c *hx.Ctx) {
 	if c.Thorough() {
 		nG, ops = 64, 6
 	}
-	for _, gmp := range []int{4, 16} {
+	gmps := []int{16}
+	if c.Thorough() {
+		gmps = []int{4, 16}
+	}
+	for _, gmp := range gmps {
 		for _, mode := range []string{"nil", "percall", "shared"} {
 			n, _ := c18Stress(jobs, gmp, nG, ops, mode, c.Seed+uint64(gmp))
 			c.CountN("race-child-calls", n)
 		}
+		c18PerCodec(jobs, gmp, 8, 3, c.Seed+uint64(gmp)*977, func(_ string, n int, _ []c18Mismatch) {
+			c.CountN("race-child-calls", n)
+		})
 	}
 }
 
